@@ -1,9 +1,9 @@
-// Repro for finding `dest_table151` (unit dest; C15 reader side / ISO 32000-1 12.3.2.2 Table 151).
+// Repro for OBSERVATION (not claimed) `dest_table151` (unit dest; C15 reader side / ISO 32000-1 12.3.2.2 Table 151).
 // Copy to pdf/tests/ of a scratch copy of /repo and run
 //   CARGO_TARGET_DIR=/tmp/dest_target cargo test --offline -p pdf --test dest_table151_repro
 // On the pinned tree: `fitbv_is_a_destination`, `null_coordinate_means_unchanged` FAIL (the reader returns
 // Err(UnknownVariant { id: "Dest", name: "FitBV" }) / Err(UnexpectedPrimitive { expected: "Number", found: "Null" }));
-// the control passes. With findings/dest_table151_fix.diff all pass (and `fixed_roundtrip`, which needs the fix to compile,
+// the control passes. With findings/dest_table151_feature.diff all pass (and `fixed_roundtrip`, which needs the fix to compile,
 // can be enabled by removing the cfg).
 use pdf::object::*;
 use pdf::primitive::Primitive;
